@@ -31,6 +31,18 @@ CHECKS = {
   technique="Coq proof (totality, strictness and linear-cost theorems about the same codec model as C03) + differential correspondence on near-valid sequences with a counting allocator in the harness",
   text="18 theorems C13_* (props/C13.v): decode never panics or overflows on canonical sequences shorter than 2^32; anything that is not the encoding of a typed value is rejected (truncated, extended, limb >= 2^32, bool/option tag > 1, unknown discriminant, inconsistent prefixes, polynomial trailing zero); allocation cost linear in the sequence length. Tied by 45k (quick) / 411k (thorough) near-valid / truncated / extended / huge-count sequences x 2 profiles, peak heap bytes per decode compared with the model cost.",
   note="cost_linear carries the hypothesis 'no list whose item type has encoded width 0' ([n] is a valid 1-element encoding of an n-item Vec<PhantomData>): round trip and a linear bound cannot both hold there. The real allocator / Vec growth policy are outside the model (the comparison allows 512 bytes per model slot)."),
+ "C04": dict(
+  technique="Coq proof about a hand-written model of merkle_tree.rs over an abstract hash (accessor totality, verification theorems) + differential correspondence with the free hash in two build profiles",
+  text="Theorems C04_* (props/C04.v) about the model of MerkleTree accessors, authentication structures, PartialMerkleTree and inclusion-proof verification over an abstract hash H with explicit usize wrap-around: accessors never panic and never present an inner node as a leaf for any index in usize (repaired code), plus the verification theorems listed in evidence. The model is tied to the code by exhaustive small-height and random proofs, malformed proofs and extreme indices (26k cases x 2 profiles).",
+  note="Model hand-written; digests compared through the free term algebra (no Tip5 collision assumed: a collision could only cause a spurious mismatch). Trees of height > 16 are not built; the theorems cover them. See evidence for the list of theorems proved so far; statements not yet proved are visible as *_full definitions."),
+ "C10": dict(
+  technique="Coq proof about a hand-written model of tree construction (both loops, explicit cutoff parameter, fuel) and authentication structures + differential correspondence over every cutoff environment value and thread count",
+  text="Theorems C10_* (props/C10.v): for every cutoff (including 0 after the repair) and every power-of-two leaf count the construction terminates and returns the specification tree (each inner node the hash of its children), independent of the cutoff; zero / non-power-of-two leaf counts are rejected. Tied to the code by one harness process per cutoff value {unset, abc, -1, 0, 1, 2, 3, 4, 8, 255, 256, 257, 2^20} x RAYON_NUM_THREADS {1,2,5,16} (58k cases), leaf counts to 2^12, exhaustive small index lists.",
+  note="Schedule independence of rayon's indexed collect is assumed from purity of the closures and validated by the thread sweep (partial by nature). Digests compared through the free term algebra."),
+ "C12": dict(
+  technique="Coq proof about a hand-written model of MmrSuccessorProof (construction and verification) over an abstract hash + differential correspondence on all small (old, appended) pairs and inconsistent accumulators",
+  text="Theorems C12_* (props/C12.v) about the model of new_from_batch_append / verify; totality on structurally inconsistent accumulators (repaired code rejects them). Tied to the code by all (old, appended) pairs with total <= 64, bit-pattern leaf counts, every single-digest alteration, and accumulators whose peak list length disagrees with the leaf count (10k cases x 2 profiles).",
+  note="Model hand-written, index functions partly from the regenerated MmrIndexGen.v. See evidence for the list of theorems proved so far."),
 }
 
 ORDER = ["C%02d" % i for i in range(1, 21)]
